@@ -21,10 +21,10 @@ RULE = ("EXHAUSTIVE over all (edition, variation) pairs of reporters-db that use
 ASSUMPTIONS = ["independent key of a case citation = (class, volume, page, guessed-edition-or-written reporter)",
                "variations whose guessed edition differs from (or is missing next to) the canonical one's are "
                "ambiguous in the database and only checked against the independent key"]
-FLOORS = {"quick": {"db_pairs": 1800, "db_pairs_unambiguous": 1500, "roundtrips": 1200, "pools": 80,
+FLOORS = {"quick": {"db_pairs": 1800, "db_pairs_unambiguous": 1500, "db_pairs_unambiguous_by_database": 1200, "roundtrips": 1200, "pools": 80,
                     "pool_pairs": 100000, "pool_equal_pairs": 300, "placeholder_objects": 50,
                     "cross_kind_pairs": 20000},
-          "thorough": {"db_pairs": 1800, "db_pairs_unambiguous": 1500, "pools": 1500, "pool_pairs": 4000000}}
+          "thorough": {"db_pairs": 1800, "db_pairs_unambiguous": 1500, "db_pairs_unambiguous_by_database": 1200, "pools": 1500, "pool_pairs": 4000000}}
 NPOOL = {"quick": 12, "thorough": 150}
 SHARDS = {"quick": 8, "thorough": 14}
 REPS = ["U.S.", "U. S.", "F.2d", "F. 2d", "S. Ct.", "S.Ct.", "Mass.", "F.3d", "Wash.", "A.2d", "A. 2d"]
@@ -51,7 +51,7 @@ def key(c):
     if isinstance(c, (IdCitation, UnknownCitation)):
         return ("identity", id(c))
     if isinstance(c, CaseCitation):
-        if c.groups.get("page") is None:
+        if refmodel.placeholder_page(c):
             return ("identity", id(c))
         return (type(c).__name__, c.groups.get("volume"), c.groups.get("page"), refmodel.norm_reporter(c))
     if isinstance(c, FullCitation):
@@ -84,6 +84,13 @@ def db_pairs(spec, rec):
         case = dict(canonical=en, variation=v, volume=vol, page=page, context=ctx)
         same_guess = (c.edition_guess is not None and canon.edition_guess is not None
                       and c.edition_guess.short_name == canon.edition_guess.short_name)
+        # independent of the library's own guess: the database relates this spelling to exactly one
+        # edition, namely the canonical one -> the mapping is unambiguous whatever the year or context
+        rel = gen.DB.related.get(v, set())
+        db_unambiguous = len(rel) == 1 and next(iter(rel))[2] == en and v not in gen.DB.journals
+        if db_unambiguous:
+            rec.count("db_pairs_unambiguous_by_database")
+            same_guess = True
         if type(c) is not type(canon):
             # e.g. the database lists 'T.C. at' as a variation of 'T.C.': the text is then a *short* citation,
             # and citations of different kinds are never equal (same property): not an unambiguous mapping
@@ -148,7 +155,7 @@ def pool(spec, rec, rng):
         elif r < 0.6:
             t = f"{gen.word(rng)}, {v} {rp} at {p}"
         elif r < 0.68:
-            t = f"{gen.word(rng)} v. {gen.word(rng)}, {v} {rp} ___ (2020)"
+            t = f"{gen.word(rng)} v. {gen.word(rng)}, {v} {rp} {rng.choice(['___', '_', '__'])} (2020)"
         elif r < 0.76:
             t = rng.choice(["Id. at 5.", "Id.", f"{gen.word(rng)}, supra, at {p}", "§ 5 of the Act"])
         elif r < 0.86:
@@ -166,7 +173,7 @@ def pool(spec, rec, rng):
     for i, c in enumerate(cits):
         if not (c == c):
             rec.violation("C16.not_reflexive", dict(citation=repr(c)[:200]))
-        if isinstance(c, (IdCitation, UnknownCitation)) or (isinstance(c, CaseCitation) and c.groups.get("page") is None):
+        if isinstance(c, (IdCitation, UnknownCitation)) or (isinstance(c, CaseCitation) and refmodel.placeholder_page(c)):
             rec.count("placeholder_objects")
     n = len(cits)
     eq = [[False] * n for _ in range(n)]
